@@ -577,12 +577,16 @@ def run(prog, rep):
     def rejected(value):
         """True / False / None (cannot tell): would validation try to parse `value` and fail?"""
         fold = lambda e: prog.const_eval(e, abcpg.module, abcpg)
-        try:
-            for c in vconds:
-                if not eval_test(canon(expand(c, venv)), {subject: value}, fold):
+        for c in vconds:
+            ce = canon(expand(c, venv))
+            try:
+                if not eval_test(ce, {subject: value}, fold):
                     return False
-        except Unknown:
-            return None
+            except Unknown:
+                # a condition that does not look at the value (the property being present, strictness): the question asked
+                # is about a node that carries the property, so it does not decide
+                if subject in ctext(ce):
+                    return None
         try:
             _json.loads(value)
             return False
